@@ -15,12 +15,14 @@ def run(ctx):
     # short writes / would-block scripts on TCP (the histories of the Stream facet), judged here for write interest
     tcpw = {"module": "Gen_C20.tla", "cfg": "Gen_C20_tcp_quick.cfg" if ctx.quick else "Gen_C20_tcp_thorough.cfg", "name": "tcpwrites"}
     tcpfail = {"module": "GenTcpFail.tla", "cfg": "GenTcpFail.cfg", "name": "tcpfail"}   # write failures on TCP connections
+    # failures while a new socket is configured (bind to the configured source address, options, local address)
+    cfgf = {"module": "Gen_C10.tla", "cfg": "Gen_C10_cfgfault.cfg", "name": "cfgfault"}
     batch = {"module": "GenBatch.tla", "cfg": "GenBatch.cfg", "name": "batch"}
     if ctx.quick:
-        gens = [{"module": "Gen_C10.tla", "cfg": "Gen_C10_quick.cfg", "name": "bfs"}, many, tcpw, batch, tcpfail]
+        gens = [{"module": "Gen_C10.tla", "cfg": "Gen_C10_quick.cfg", "name": "bfs"}, many, tcpw, batch, tcpfail, cfgf]
     else:
         gens = [{"module": "Gen_C10.tla", "cfg": "Gen_C10_thorough.cfg", "name": "bfs"},
-                {"module": "Gen_C10.tla", "cfg": "Gen_C10_sim.cfg", "name": "sim", "simulate": 1500, "depth": 9}, many, tcpw, batch, tcpfail]
+                {"module": "Gen_C10.tla", "cfg": "Gen_C10_sim.cfg", "name": "sim", "simulate": 1500, "depth": 9}, many, tcpw, batch, tcpfail, cfgf]
     simlib.engine_check(ctx, gens, FACETS, selftests=mutators.SOCKETS)
     ctx.assumptions += ["sockets are virtual (ares_set_socket_functions_ex); descriptor numbers are never reused by the harness",
                         "ares_getsock is checked up to its 16-socket limit"]
